@@ -95,13 +95,12 @@ def comps(fmt, n):
 
 def int1(a, n, h):
     """integral over [-h, h] of the polynomial with n coefficients a:  sum_{i even} a_i * 2 h^(i+1) / (i+1)"""
-    return _sum(['%s * 2 * %s / %d' % (a % i, power('(' + h + ')', i + 1), i + 1) for i in range(0, n, 2)])
+    return 'INT1_%d(%s, %s)' % (n, ', '.join(a % i for i in range(n)), h)
 
 
 def int2(a, b, na, nb, h):
     """integral over [-h, h] of the product of two polynomials: sum_{i+j even} a_i b_j * 2 h^(i+j+1) / (i+j+1)"""
-    return _sum(['%s * %s * 2 * %s / %d' % (a % i, b % j, power('(' + h + ')', i + j + 1), i + j + 1)
-                 for i in range(na) for j in range(nb) if (i + j) % 2 == 0])
+    return 'INT2_%d_%d(%s, %s)' % (na, nb, ', '.join([a % i for i in range(na)] + [b % j for j in range(nb)]), h)
 
 
 def unroll(fmt, n):
@@ -114,4 +113,14 @@ def allk(bound, body):
     (BS_CAP <= 16); body is a format string with {k} for the index"""
     q = '__CPROVER_forall { size_t bs_k; (bs_k < BS_CAP && bs_k < (%s)) ==> (%s) }' % (bound, body.replace('{k}', 'bs_k'))
     u = ' && '.join('(!(%d < (%s)) || (%s))' % (k, bound, body.replace('{k}', str(k))) for k in range(8))
-    return '(BS_CAP > 16 ? (%s) : (%s))' % (q, u)
+    return 'BS_SEL((%s), (%s))' % (q, u)
+
+
+def lin_coef(a, size, K, xm, t, kind):
+    """coefficient K of  ((u + xm) - t) * p(u)   (kind 'A')   or   (t - (u + xm)) * p(u)   (kind 'B'),
+    p with `size` coefficients a (format string)"""
+    lo = (a % (K - 1)) if 1 <= K <= size else 'BS_ZERO'
+    cur = (a % K) if K < size else 'BS_ZERO'
+    xp = '(%s + (%s) * %s)' % (lo, xm, cur)         # coefficient K of (u + xm) p(u)
+    tp = '(%s) * %s' % (t, cur)
+    return '(%s - %s)' % (xp, tp) if kind == 'A' else '(%s - %s)' % (tp, xp)
